@@ -1,5 +1,5 @@
 //! Front-end histories on nb_device::Device with a scripted radio.
-//! line: ndev r=<rid> fault=<k|-> | op | ...   ops: abp | join <deveui> <appeui> <appkey> <draws> <resp> |
+//! line: ndev r=<rid> fault=<k|kxN|-> | op | ...   ops: abp | join <deveui> <appeui> <appkey> <draws> <resp> |
 //!   send <data> <port> <conf> <draws> <resp> | phy <resp> | timeout | dr n | adr b | fcnt
 //!   resp (what the radio answers): txing | txdone | idle | rxing | err | rx<hex>
 use crate::macops::{region_cfg, rng_of, ScriptRng};
@@ -14,7 +14,7 @@ pub struct Radio {
     pub next: String,
     pub packet: Vec<u8>,
     pub calls: usize,
-    pub fault: Option<usize>,
+    pub fault: Option<(usize, usize)>,
 }
 #[derive(Debug)]
 pub struct RErr;
@@ -42,7 +42,7 @@ impl PhyRxTx for Radio {
             REvent::CancelRx => "cancel_rx".into(),
             REvent::Phy(_) => "phy".into(),
         };
-        if self.fault == Some(n) {
+        if matches!(self.fault, Some((k, len)) if k <= n && n < k + len) {
             self.trace.push(format!("{what}!ERR"));
             return Err(RErr);
         }
@@ -98,7 +98,7 @@ pub fn run_history(line: &str) -> String {
         let (k, v) = kv.split_once('=').unwrap();
         match k {
             "r" => r = int(v),
-            "fault" => fault = if v == "-" { None } else { Some(int::<usize>(v)) },
+            "fault" => fault = if v == "-" { None } else { Some(match v.split_once('x') { Some((a, b)) => (int::<usize>(a), int::<usize>(b)), None => (int::<usize>(v), 1) }) },
             "bias" => bias = v,
             "session" => session = Some(v.to_string()),
             _ => {}
